@@ -4,6 +4,14 @@ TB = ("Trusted: Lean 4.33 kernel (axioms at most propext, Classical.choice, Quot
       "the hand-written model, tied to the code only by the correspondence run (differential testing of the model's executable definitions against the real crate on generated and enumerated inputs); "
       "SHA-256 as a free term algebra. ")
 TEXT = {
+    "C17": {
+        "text": "Theorems: for every sequence of file-secret operations (add, replace, move, delete secret, delete folder) the set of blobs on disk equals the replay of the file event log; after deleting a secret or a folder no blob of it remains; every blob is stored under the digest of its bytes; the server accepts an upload iff the received bytes hash to the requested name, and a refused upload changes nothing. Tie: generated histories on a real account (both backends) with, after every step, disk listing vs FileReducer replay, blob name vs SHA-256, decryption vs the original content, no blob without a live secret; uploads of correct / bit-flipped / truncated / empty / extended bodies to a live in-process server with a directory walk for stray files and a download comparison.",
+        "note": TB + "Partial: mid-transfer connection loss is runtime behaviour outside the model. Modelled rather than verified: age encryption, the file system.",
+    },
+    "C18": {
+        "text": "Theorems: importing an exported archive (distinct entry names) restores exactly the exported parts; a manifest-listed entry that does not hash to its checksum, or is missing, makes the import fail and nothing is restored; after sanitising, joining ANY entry name to the import target never walks above it. Tie: real export/import round trips on generated accounts for v2/file-system and v3/sqlite with decrypted-folder comparison; hostile archives rebuilt from the valid one with one change each (content byte, manifest checksum, `../`, absolute and drive-prefixed names, duplicate, missing entry) with a directory-tree diff around the target; the sanitiser model is compared with the real sanitize_file_path on generated names.",
+        "note": TB + "Modelled rather than verified: zip container, sanitize_filename internals.",
+    },
     "C19": {
         "text": "Theorem: importing any set of logs (distinct owners) into an empty database in any order leaves every log with exactly the source records in order and its tree equal to their commits (same root and length, hence the same sync status and conflict-free syncing); equal event sequences replay to the same folder on either backend. Tie (per-instance translation validation): generated file-system accounts are dry-run upgraded (directory tree digest unchanged), really upgraded, and compared before/after on sync status, decrypted folders and trusted devices; a synced account's upgraded device must sync without conflict and without changing the server; the same history executed directly on both backends must give the same folders and log lengths.",
         "note": TB + "Modelled rather than verified: sqlite, the file formats; preferences / servers / blobs not yet compared.",
